@@ -22,14 +22,15 @@ EXPLANATION = ("Closed step obligations (eval): for each of the nine property mo
 def units(tier):
     # the functions that carry a table through the formula layer: which table an atom is taken from is a value-level
     # question and is under contract; the loader protocol itself is not (see EXPLANATION)
-    return ([W.U_FORMULA_CHANGE_TABLE, K.U_CHANGE_TABLE] + G.U_PARSE_FORMULA + K.U_TABLE_ISOTOPE + [K.U_SYMBOL] + K.U_GET_TABLE + K.U_MAKE + [FO.U_CHANGE_TABLE_STRUCT, FO.U_CHANGE_TABLE_ATOM]) + MX.U_MIX_WRAPPERS
+    return (([W.U_FORMULA_CHANGE_TABLE, K.U_CHANGE_TABLE] + G.U_PARSE_FORMULA + K.U_TABLE_ISOTOPE + [K.U_SYMBOL] + K.U_GET_TABLE + K.U_MAKE + [FO.U_CHANGE_TABLE_STRUCT, FO.U_CHANGE_TABLE_ATOM]) + MX.U_MIX_WRAPPERS) + [K.L_LOADER_MARKS]
 
 
 def runner_tasks(tier):
     return [{"module": "c10", "task": "steps", "kind": "eval", "clause": "step obligations per module/state/action", "timeout": 1500},
             {"module": "c10", "task": "shared_mutables", "kind": "eval", "clause": "no shared mutable per-atom objects"},
             {"module": "c10", "task": "formula_routing", "kind": "eval", "clause": "formula(s, table=T) and pickles stay in T"},
-            {"module": "c10", "task": "histories", "kind": "bounded", "clause": "sampled interleavings", "timeout": 3000}]
+            {"module": "c10", "task": "histories", "kind": "bounded", "clause": "sampled interleavings", "timeout": 3000},
+            {"module": "stateful", "task": "C06", "name": "init order", "kind": "bounded", "clause": "private tables initialised in other orders serve the same masses / densities"}]
 
 
 REPLAY = {"module": "c10", "task": "replay"}
